@@ -74,7 +74,8 @@ RE(e, ctx) ==
     [] e.k = "idx"  -> RE(e.a, 99) \o "[" \o RE(e.i, 0) \o "]"
     [] e.k = "call" -> e.f \o "(" \o RArgs(e.args) \o ")"
     [] e.k = "callv" -> (IF IsAtom(e.f) THEN RE(e.f, 99) ELSE "(" \o RE(e.f, 0) \o ")") \o "(" \o JoinS(REs(e.es), ", ") \o ")"
-    [] e.k = "lam"  -> LET s == "(" \o JoinS(e.ps, ", ") \o ") -> " \o RE(e.body, 0)
+    [] e.k = "lam"  -> LET s == "(" \o JoinS([i \in 1..Len(e.ps) |-> e.ps[i] \o
+                                          (IF "ptys" \in DOMAIN e THEN ": " \o e.ptys[i] ELSE "")], ", ") \o ") -> " \o RE(e.body, 0)
                        IN IF ctx > 0 THEN "(" \o s \o ")" ELSE s
     [] e.k = "mcall" -> RE(e.o, 99) \o "." \o e.m \o "(" \o JoinS(REs(e.es), ", ") \o ")"
     [] e.k = "match" -> LET s == "match " \o RE(e.s, 0) \o " { " \o
@@ -90,10 +91,11 @@ RIter(it) == CASE it.k = "count" -> RE(it.e, 0)
                [] it.k = "range" -> "range(" \o RE(it.a, 0) \o ", " \o RE(it.b, 0) \o ")"
                [] it.k = "array" -> RE(it.e, 0)
 
+Ann(s) == IF "ty" \in DOMAIN s /\ s.ty # "" THEN ": " \o s.ty ELSE ""
 \* one statement on one line (used inside expression blocks)
 RInline(s) ==
-  CASE s.k = "let"   -> "let " \o RP(s.p) \o " = " \o RE(s.e, 0)
-    [] s.k = "var"   -> "var " \o RP(s.p) \o " = " \o RE(s.e, 0)
+  CASE s.k = "let"   -> "let " \o RP(s.p) \o Ann(s) \o " = " \o RE(s.e, 0)
+    [] s.k = "var"   -> "var " \o RP(s.p) \o Ann(s) \o " = " \o RE(s.e, 0)
     [] s.k = "assign" -> RE(s.tgt, 0) \o " " \o s.op \o " " \o RE(s.e, 0)
     [] s.k = "expr"  -> RE(s.e, 0)
     [] s.k = "print" -> "println(" \o RE(s.e, 0) \o ")"
